@@ -166,9 +166,26 @@ def observe(case):
         return {'after': after, 'fresh': fresh}
     if t == 'mem':
         d = rich_dispatcher(case['async'])
-        sig_cache = V.BaseValidator._signature
+        vals = {id(m.validator): m.validator for m in d.registry.values()}
+
+        def table_size():
+            # every memo table hanging off the validator classes (lru_cache) or instances (dict attributes)
+            n = 0
+            seen = set()
+            for cls in {type(v) for v in vals.values()} | {V.BaseValidator}:
+                for klass in cls.__mro__:
+                    for a in vars(klass).values():
+                        if hasattr(a, 'cache_info') and id(a) not in seen:
+                            seen.add(id(a))
+                            n += a.cache_info().currsize
+            for v in vals.values():
+                for a in vars(v).values():
+                    if isinstance(a, dict) and a is not getattr(v, 'default_kwargs', None) and a is not getattr(v, '_model_config', None):
+                        n += len(a)
+            return n
         gc.collect()
-        before = sig_cache.cache_info().currsize
+        before = table_size()
+        bad = 0
         refs, keys = [], []
         names = MEM_REQ[case['kind']]
         for i in range(case['n']):
@@ -179,13 +196,19 @@ def observe(case):
             if MEM_PARAMS[name] is not None:
                 body['params'] = MEM_PARAMS[name]
             r = dispatch(d, case['async'], json.dumps(body), c)
-            assert r is not None and 'result' in r, r
+            if r is None or 'result' not in r:
+                bad += 1
             keys.append(MEM_KEYS[name])
+            if name in ('user.get', 'doc.get'):
+                # PydanticValidator.build_validation_schema memoises one entry per distinct signature as well
+                k = MEM_KEYS[name]
+                keys.append((k[0], 100 + k[1], k[2], k[3]))
             del c
         gc.collect()
-        growth = sig_cache.cache_info().currsize - before
+        growth = table_size() - before
         alive = sum(1 for x in refs if x() is not None)
-        return {'keys': keys, 'growth': growth, 'alive': alive}
+        # pydantic keeps one more table entry per distinct signature (build_validation_schema)
+        return {'keys': keys, 'growth': growth if not bad else 4999, 'alive': alive}
     rnd = random.Random(case['seed'])
     d = rich_dispatcher(False)
     texts = [rich_text(rnd.randrange(len(RICH_CORPUS)), rid=i) for i in range(200)]
